@@ -26,8 +26,8 @@ import (
 // blobDesc describes the content of a blob by a few integers (the trace stays small):
 // nlines lines "f<fam> l<i> xxxx\n" of payload width `width`; the lines i with (i*7+variant)%period == 0
 // (period > 0) are replaced by "f<fam> l<i> EDIT<variant>\n"; `bin` puts a NUL byte in front; `tail`
-// appends that many 'z' without a newline; `fill` selects the payload letter ('x' for 0, else 'a'+fill-1),
-// so that blobs of equal size can be made dissimilar.
+// appends that many 'z' without a newline; `fill` selects the payload letter ('x' for 0, else 'a'+fill-1; from 100 on
+// a non-ASCII / invalid UTF-8 / CR payload), so that blobs of equal size can be made dissimilar.
 type blobDesc struct {
 	fam, nlines, width, variant, period, bin, tail, fill int
 }
@@ -51,7 +51,10 @@ func (b blobDesc) data() []byte {
 		sb.WriteByte(0)
 	}
 	fill := "x"
-	if b.fill > 0 {
+	switch {
+	case b.fill >= 100:
+		fill = exoticFill[(b.fill-100)%len(exoticFill)]
+	case b.fill > 0:
 		fill = string(rune('a' + (b.fill-1)%26))
 	}
 	for i := 0; i < b.nlines; i++ {
@@ -64,6 +67,10 @@ func (b blobDesc) data() []byte {
 	sb.WriteString(strings.Repeat("z", b.tail))
 	return []byte(sb.String())
 }
+
+// payloads for fill codes >= 100: a two-byte rune, invalid UTF-8, three-byte runes, a carriage return, a truncated
+// rune, CRLF line ends (blobsAreClose counts runes, splits lines and diffs on rune level)
+var exoticFill = []string{"\u00e9", "\xff\xfe", "\u65e5\u672c", "\r", "\xc3", "x\r\n"}
 
 type blob struct {
 	hash plumbing.Hash
@@ -148,9 +155,13 @@ type tcase struct {
 	szq     [][2]int64 // pairs of sizes put to the real sizesAreClose (also outside what Consume can reach: 0, 1, < 32, > 2^32)
 }
 
-func entry(name int, h plumbing.Hash, mode int) object.ChangeEntry {
+// the two trees of the diff: every From entry points to treeFrom, every To entry to treeTo (Consume never looks at
+// them; the output must carry them along)
+var treeFrom, treeTo = &object.Tree{Hash: plumbing.Hash{1}}, &object.Tree{Hash: plumbing.Hash{2}}
+
+func entry(name int, h plumbing.Hash, mode int, tree *object.Tree) object.ChangeEntry {
 	nm := nameOf(name)
-	return object.ChangeEntry{Name: nm, TreeEntry: object.TreeEntry{Name: filepath.Base(nm), Mode: modeTab[mode], Hash: h}}
+	return object.ChangeEntry{Name: nm, Tree: tree, TreeEntry: object.TreeEntry{Name: filepath.Base(nm), Mode: modeTab[mode], Hash: h}}
 }
 
 func run(tc *tcase) Sx {
@@ -179,13 +190,13 @@ func run(tc *tcase) Sx {
 		var ch *object.Change
 		switch c.kind {
 		case "a":
-			ch = &object.Change{To: entry(c.name, tc.blobs[c.to].hash, c.mt)}
+			ch = &object.Change{To: entry(c.name, tc.blobs[c.to].hash, c.mt, treeTo)}
 			addC, addH, addI = append(addC, ch), append(addH, tc.blobs[c.to].hash), append(addI, c)
 		case "d":
-			ch = &object.Change{From: entry(c.name, tc.blobs[c.from].hash, c.mf)}
+			ch = &object.Change{From: entry(c.name, tc.blobs[c.from].hash, c.mf, treeFrom)}
 			delC, delH, delI = append(delC, ch), append(delH, tc.blobs[c.from].hash), append(delI, c)
 		case "m":
-			ch = &object.Change{From: entry(c.name, tc.blobs[c.from].hash, c.mf), To: entry(c.name, tc.blobs[c.to].hash, c.mt)}
+			ch = &object.Change{From: entry(c.name, tc.blobs[c.from].hash, c.mf, treeFrom), To: entry(c.name, tc.blobs[c.to].hash, c.mt, treeTo)}
 		default:
 			ch = &object.Change{}
 		}
@@ -355,23 +366,35 @@ func run(tc *tcase) Sx {
 		result = T("res", A("err"))
 	default:
 		out := res[api.DependencyTreeChanges].(object.Changes)
-		side := func(e object.ChangeEntry) Sx {
+		side := func(e object.ChangeEntry, tree *object.Tree) Sx {
 			if e == (object.ChangeEntry{}) {
 				return A("-")
 			}
+			// path and content: -1 when they are not the input's (a violation of the property); the attributes the
+			// property does not speak about go into the mode code: 0..4 the mode, 5 the tree pointer changed, 6 the
+			// base name in the tree entry changed, 7 a mode outside the table (fine correspondence only)
 			n, ok := nameIdx[e.Name]
-			if !ok || e.TreeEntry.Name != filepath.Base(e.Name) || e.Tree != nil {
+			if !ok {
 				n = -1
 			}
 			b, ok := blobIdx[e.TreeEntry.Hash]
 			if !ok {
 				b = -1
 			}
-			return L(I(n), I(b), I(modeCode(e.TreeEntry.Mode)))
+			m := modeCode(e.TreeEntry.Mode)
+			switch {
+			case e.Tree != tree:
+				m = 5
+			case e.TreeEntry.Name != filepath.Base(e.Name):
+				m = 6
+			case m < 0:
+				m = 7
+			}
+			return L(I(n), I(b), I(m))
 		}
 		outs := make([]Sx, len(out))
 		for i, c := range out {
-			outs[i] = L(side(c.From), side(c.To))
+			outs[i] = L(side(c.From, treeFrom), side(c.To, treeTo))
 		}
 		result = T("res", A("ok"), L(outs...))
 	}
@@ -798,6 +821,9 @@ func sim(c *Config, maxChanges int, kind string) *tcase {
 		}
 		if r.Intn(8) == 0 {
 			d.bin = 1
+		}
+		if r.Intn(6) == 0 {
+			d.fill = 100 + r.Intn(len(exoticFill))
 		}
 		if r.Intn(10) == 0 {
 			d = blobDesc{fam: d.fam, nlines: 1, width: 22 + r.Intn(5)} // 30..34 bytes: around the minimum size
